@@ -867,7 +867,16 @@ func (e *Exec) callBuiltin(th *Thread, caller *Frame, site ssa.Instruction, b *s
 		var n int
 		switch src := args[1].(type) {
 		case SliceV:
-			ln := c.Ite(c.Cmp(smt.OLt, e.lenOf(dst), e.lenOf(src)), e.lenOf(dst), e.lenOf(src))
+			dl, sl := e.lenOf(dst), e.lenOf(src)
+			ln := c.Ite(c.Cmp(smt.OLt, dl, sl), dl, sl)
+			if !ln.IsConst() {
+				// the shorter side is often known to the solver even when the offsets are symbolic
+				if sl.IsConst() && !e.feasible(c.Cmp(smt.OLt, dl, sl)) {
+					ln = sl
+				} else if dl.IsConst() && !e.feasible(c.Cmp(smt.OLt, sl, dl)) {
+					ln = dl
+				}
+			}
 			n = e.concretizeLen(caller, site, ln)
 			if n == 0 {
 				return e.mkInt(0)
